@@ -49,6 +49,9 @@ def events(env, tier):
         ev.append(("stmt", "K2", [], [("k", k1), ("m", k2), ("z", k1)], [N("0")], "none"))
     ev.append(("for", "int", "i", ("range", 0, 2, None), [("stmt", "L", [V("i")], [], [V("i"), B("+", V("i"), N("1"))], "sq")]))
     ev.append(("for", "float", "t", ("vals", [N("0.5"), N("2")], "sq"), [("stmt", "L", [], [("k", V("t"))], [N("0")], "none"), ("stmt", "M", None, [], [N("1")], "none")]))
+    # ranges with a step that does not divide the span (a:b:c denotes a, a+c, ... below b)
+    ev.append(("for", "int", "j", ("range", 0, 5, 2), [("stmt", "L2", [V("j")], [], [V("j")], "none")]))
+    ev.append(("for", "int", "j", ("range", 1, 11, 3), [("stmt", "L3", [], [("k", B("*", V("j"), N("2")))], [B("+", V("j"), N("1")), V("j")], "rd")]))
     ev.append(("blank",))
     return ev
 
